@@ -5,120 +5,120 @@ CHECKS = {
   "technique": "property-based round-trip testing (proptest structured generation + shrinking) against a strict projection oracle; the thorough tier adds a coverage-guided libFuzzer stage (cargo-fuzz) with the same oracle inside the target",
   "level": "Generated-input search: well-formed values of all 18 kinds are encoded to Zinc and decoded again; the result must be strictly equal (field-by-field projection, not libhaystack's ==). Held on everything explored; no absence claim.",
   "note": "Trusts chrono/chrono-tz for zone rules and Rust's f64 formatting/parsing; values are built through public constructors.",
-  "ref": "DESIGN.md section 3 C01; section 9 (what the build added, findings, sensitivity rounds 9.7-9.12, appendix E)",
+  "ref": "DESIGN.md section 3 C01; section 9 (what the build added, findings, sensitivity rounds 9.7-9.12 and 9.14, appendix E)",
  },
  "C02": {
   "technique": "property-based round-trip testing (proptest) through three serde_json routes and typed T->json->T, strict projection oracle; the thorough tier adds a coverage-guided libFuzzer stage (cargo-fuzz) with the same oracle inside the target",
   "level": "Generated-input search: well-formed values are serialised to Hayson and deserialised through to_string/from_str, to_vec/from_slice, to_value/from_value and the typed Serialize+Deserialize impls; result must be strictly equal. Held on everything explored.",
   "note": "Trusts serde_json for JSON syntax and chrono-tz for zone rules. A grid meta tag named 'ver' is excluded (reserved by the Hayson grid encoding).",
-  "ref": "DESIGN.md section 3 C02; section 9 (what the build added, findings, sensitivity rounds 9.7-9.12, appendix E)",
+  "ref": "DESIGN.md section 3 C02; section 9 (what the build added, findings, sensitivity rounds 9.7-9.12 and 9.14, appendix E)",
  },
  "C10": {
   "technique": "property-based testing (proptest): any constructible value, deep spines and decoder images through every encoder under catch_unwind; the thorough tier adds a coverage-guided libFuzzer stage (cargo-fuzz) with the same oracle inside the target",
   "level": "Generated-input search over ill-formed and well-formed values (depth to 64), the image of each decoder offered to the other encoder, and foreign Hayson documents; oracle: no encoder / Display / dis call panics. Held on everything explored.",
   "note": "Instants within 14 h of chrono's limits are excluded from generation (open known finding F12b, replayed on every run).",
-  "ref": "DESIGN.md section 3 C10; section 9 (what the build added, findings, sensitivity rounds 9.7-9.12, appendix E)",
+  "ref": "DESIGN.md section 3 C10; section 9 (what the build added, findings, sensitivity rounds 9.7-9.12 and 9.14, appendix E)",
  },
  "C12": {
   "technique": "property-based testing of algebraic laws (proptest) over near-collision triples, plus differential check of HashSet/BTreeSet/sort+dedup against a quadratic ==-class count",
   "level": "Generated-input search: triples with deliberate near-collisions; all stated laws of ==, Hash, Ord, PartialOrd checked on Value and on each typed value. Held on everything explored.",
   "note": "NaN excluded as the property states. std sort()/collect (PartialOrd::lt based) are only asserted when all Numbers in the triple share one unit (open known finding F13d).",
-  "ref": "DESIGN.md section 3 C12; section 9 (what the build added, findings, sensitivity rounds 9.7-9.12, appendix E)",
+  "ref": "DESIGN.md section 3 C12; section 9 (what the build added, findings, sensitivity rounds 9.7-9.12 and 9.14, appendix E)",
  },
  "C19": {
   "technique": "exhaustive enumeration (18 kinds x 256 codes x names) plus property-based testing (proptest) of predicates, typed conversions, dict getters and grid construction against the RVal model",
   "level": "The finite kind/code/name space is enumerated completely; values, dicts and record lists are generated. Held on everything explored.",
   "note": "Model of make_from_dicts: rows unchanged in order; columns = sorted distinct union of keys, no column meta.",
-  "ref": "DESIGN.md section 3 C19; section 9 (what the build added, findings, sensitivity rounds 9.7-9.12, appendix E)",
+  "ref": "DESIGN.md section 3 C19; section 9 (what the build added, findings, sensitivity rounds 9.7-9.12 and 9.14, appendix E)",
  },
  "C03": {
   "technique": "property-based testing + mutation/grammar-based fuzzing (proptest) with a deterministic fuel oracle for non-termination and child-process containment for stack exhaustion; the thorough tier adds a coverage-guided libFuzzer stage (cargo-fuzz) with the same oracle inside the target",
   "level": "Generated-input search: arbitrary bytes, grammar-generated documents, every prefix, mutants, damaged grids, corpus windows, chunked/faulting readers, and a nesting ladder to 131072 in child processes; oracle: every decoder entry point returns Ok or Err (no panic, no fuel exhaustion, no abort, no confirmed hang). Held on everything explored.",
   "note": "Non-termination is detected by fuel ticks at Scanner::read/Lexer::read (verif-hooks); a loop that never reads would only be seen by the 30 s child-process watchdog of the ladder. Stack limits: the environment's main-thread stack and a 2 MiB thread.",
-  "ref": "DESIGN.md section 3 C03; section 9 (what the build added, findings, sensitivity rounds 9.7-9.12, appendix E)",
+  "ref": "DESIGN.md section 3 C03; section 9 (what the build added, findings, sensitivity rounds 9.7-9.12 and 9.14, appendix E)",
  },
  "C04": {
   "technique": "differential property-based testing (proptest) against an independent reference Zinc writer and strict grammar reader written from the specification; the thorough tier adds a coverage-guided libFuzzer stage (cargo-fuzz) with the same oracle inside the target",
   "level": "Direction A: libhaystack's output must be a sentence of the grammar (reference reader) denoting the value. Direction B: every legal spelling produced by the reference writer must decode to the value. The reference pair is self-tested first. Held on everything explored.",
   "note": "Reference = DESIGN.md appendix A; spellings the specification leaves open are never written. Number denotation by Rust's correctly rounded parse; units from unit-gen/units.txt; zones from chrono-tz.",
-  "ref": "DESIGN.md section 3 C04; section 9 (what the build added, findings, sensitivity rounds 9.7-9.12, appendix E)",
+  "ref": "DESIGN.md section 3 C04; section 9 (what the build added, findings, sensitivity rounds 9.7-9.12 and 9.14, appendix E)",
  },
  "C05": {
   "technique": "differential property-based testing (proptest) against an independent reference Hayson writer/reader with its own JSON parser",
   "level": "Direction A: libhaystack's JSON must be read by the strict reference reader (exact _kind and member names) as the same value. Direction B: every member order, optional-member choice and number spelling from the reference writer must decode to the value. Held on everything explored.",
   "note": "Reference = DESIGN.md appendix B. A dict tag named _kind and a grid meta tag named ver are outside the model of this encoding.",
-  "ref": "DESIGN.md section 3 C05; section 9 (what the build added, findings, sensitivity rounds 9.7-9.12, appendix E)",
+  "ref": "DESIGN.md section 3 C05; section 9 (what the build added, findings, sensitivity rounds 9.7-9.12 and 9.14, appendix E)",
  },
  "C06": {
   "technique": "exhaustive enumeration (zones x offset transitions x instants x precisions; all RFC 3339 offsets) plus property-based testing (proptest) against chrono / chrono-tz as oracle",
   "level": "Every zone with an unambiguous city name is enumerated with the seconds around its offset transitions (every 4th transition in quick, all in thorough = exhaustive grid), every RFC 3339 offset in 15 min steps; random (zone, instant, precision) fill in between. Constructors, Zinc, Hayson and the C API getters must keep instant, offset and zone name. Held on everything explored.",
   "note": "chrono and chrono-tz are trusted. Four zones sharing a city name with a different zone are out of scope and listed in the evidence.",
-  "ref": "DESIGN.md section 3 C06; section 9 (what the build added, findings, sensitivity rounds 9.7-9.12, appendix E)",
+  "ref": "DESIGN.md section 3 C06; section 9 (what the build added, findings, sensitivity rounds 9.7-9.12 and 9.14, appendix E)",
  },
  "C11": {
   "technique": "metamorphic property-based testing (proptest): decode-encode-decode fixed point, chunked-reader vs buffer differential, byte-counting reader for the laziness bound; the thorough tier adds a coverage-guided libFuzzer stage (cargo-fuzz) with the same oracle inside the target",
   "level": "Generated accepted texts (random legal spellings, accepted mutants, corpus files) must reach a fixed point after one normalisation; reader decoding with generated chunk/Interrupted schedules must equal buffer decoding and the lazy iterator must yield parse_grid's rows; each row must be handed out before more than (end of first token after the row + 16 bytes) were consumed. Held on everything explored.",
   "note": "Row offsets are known because the harness assembles the grid text row by row. The 16 byte slack is the scanner's documented peek-ahead for number/date/time disambiguation.",
-  "ref": "DESIGN.md section 3 C11; section 9 (what the build added, findings, sensitivity rounds 9.7-9.12, appendix E)",
+  "ref": "DESIGN.md section 3 C11; section 9 (what the build added, findings, sensitivity rounds 9.7-9.12 and 9.14, appendix E)",
  },
  "C15": {
   "technique": "exhaustive enumeration of the unit table (every unit x every identifier x 8 magnitudes x both codecs) plus property-based testing (proptest) of non-identifiers",
   "level": "The positive half is finite and enumerated completely on every run (exhaustive: true); near-miss and random non-identifiers are generated. Held on everything explored.",
   "note": "Units are listed from the source of units_generated.rs by the harness build script and compared with unit-gen/units.txt, independently of the UNITS map.",
-  "ref": "DESIGN.md section 3 C15; section 9 (what the build added, findings, sensitivity rounds 9.7-9.12, appendix E)",
+  "ref": "DESIGN.md section 3 C15; section 9 (what the build added, findings, sensitivity rounds 9.7-9.12 and 9.14, appendix E)",
  },
  "C16": {
   "technique": "exhaustive enumeration of all ordered unit pairs (conversion, product, quotient) against the physical formula from units.txt, plus property-based testing (proptest) of Number arithmetic",
   "level": "All ~196k ordered pairs x 7 magnitudes are enumerated on every run (exhaustive: true); Number + - * / over generated pairs. Held on everything explored.",
   "note": "Tolerance 1e-9 relative to the operands; results beyond the f64 range are not compared; one-side-unit-less addition is left open by the statement and only counted.",
-  "ref": "DESIGN.md section 3 C16; section 9 (what the build added, findings, sensitivity rounds 9.7-9.12, appendix E)",
+  "ref": "DESIGN.md section 3 C16; section 9 (what the build added, findings, sensitivity rounds 9.7-9.12 and 9.14, appendix E)",
  },
  "C07": {
   "technique": "model-based property testing (proptest) against a reference evaluator written from the filter semantics, plus bounded exhaustive enumeration of small filters x small records",
   "level": "Generated (filter, records) pairs with tags steered near the literals, evaluated by libhaystack (filter built through public node fields, and through the parser) and by a three-valued reference evaluator; grids through filter/filter_all; all filters of size <= 2 (size 3 over a reduced term set) against all 343 records of a 7-value universe are enumerated. Held on everything explored.",
   "note": "Ordering of Numbers with different units is left open by the statement and only counted. ^symbol and relationship terms are covered by C13. Ref equality ignores dis; timestamps compare by instant.",
-  "ref": "DESIGN.md section 3 C07; section 9 (what the build added, findings, sensitivity rounds 9.7-9.12, appendix E)",
+  "ref": "DESIGN.md section 3 C07; section 9 (what the build added, findings, sensitivity rounds 9.7-9.12 and 9.14, appendix E)",
  },
  "C08": {
   "technique": "round-trip property testing (proptest) between filter trees, libhaystack's printer and parser, and an independent reference printer with random legal spacing",
   "level": "Generated filter trees: print-then-parse gives an equal tree (literals strictly), reference-printed text with arbitrary legal blanks/line breaks parses to exactly the tree (precedence, grouping, path end), second round stable, visitor order. Held on everything explored.",
   "note": "Names exclude the keywords not/and/or/true/false. *== and relationship refs are compared by id after library printing (Display omits dis).",
-  "ref": "DESIGN.md section 3 C08; section 9 (what the build added, findings, sensitivity rounds 9.7-9.12, appendix E)",
+  "ref": "DESIGN.md section 3 C08; section 9 (what the build added, findings, sensitivity rounds 9.7-9.12 and 9.14, appendix E)",
  },
  "C09": {
   "technique": "fuzzing by generation and mutation (proptest) with fuel oracle, child-process paren-depth ladder, and a call-budget resolver as deterministic non-termination oracle for evaluation; the thorough tier adds a coverage-guided libFuzzer stage (cargo-fuzz) with the same oracle inside the target",
   "level": "Arbitrary bytes, operator soup, valid filters, every prefix, mutants, ref-chasing filters; paren ladder to 131072 in child processes (also through the C entry point); every parsed filter is printed and evaluated over cyclic ref graphs against the empty and the real defs namespace. Held on everything explored.",
   "note": "Non-termination of evaluation is detected through the resolver's call budget (20000 calls), parse loops through fuel ticks in the lexers.",
-  "ref": "DESIGN.md section 3 C09; section 9 (what the build added, findings, sensitivity rounds 9.7-9.12, appendix E)",
+  "ref": "DESIGN.md section 3 C09; section 9 (what the build added, findings, sensitivity rounds 9.7-9.12 and 9.14, appendix E)",
  },
  "C13": {
   "technique": "model-based property testing (proptest) of generated taxonomies against an adjacency-set/closure model, plus exhaustive enumeration over the real Project Haystack defs (all symbols, all ordered pairs for fits)",
   "level": "Random acyclic defs grids and records are generated and twelve kinds of namespace queries compared with the subtype-graph model as sets; the shipped defs are enumerated completely for unary queries and the 714x714 fits table. Held on everything explored.",
   "note": "Answers are compared as sets of def names (plus a no-duplicates check); the defs grid of the real namespace is read with libhaystack's own Zinc decoder.",
-  "ref": "DESIGN.md section 3 C13; section 9 (what the build added, findings, sensitivity rounds 9.7-9.12, appendix E)",
+  "ref": "DESIGN.md section 3 C13; section 9 (what the build added, findings, sensitivity rounds 9.7-9.12 and 9.14, appendix E)",
  },
  "C14": {
   "technique": "stateful property testing (proptest): generated query histories against the stateless model, and generated multi-thread schedules steered through schedule-point hooks (biased schedule sampling)",
   "level": "Histories are deterministic: each generated query sequence is replayed on fresh namespaces in four orders and every answer must equal the model. Schedules: 2-16 threads on one cold namespace with generated delay plans at the caches' critical points; every answer must equal the model, no panic, completion (a stuck schedule is confirmed in a child process before being called a deadlock). Held on everything explored.",
   "note": "Weakest property for this technique: the OS schedule is biased, not owned (DashMap's locks cannot be replaced by a controllable scheduler). Evidence reports how many schedules had two threads inside the same cache-miss window.",
-  "ref": "DESIGN.md section 3 C14; section 9 (what the build added, findings, sensitivity rounds 9.7-9.12, appendix E)",
+  "ref": "DESIGN.md section 3 C14; section 9 (what the build added, findings, sensitivity rounds 9.7-9.12 and 9.14, appendix E)",
  },
  "C17": {
   "technique": "stateful model-based property testing (proptest): generated C API call sequences interpreted against the extern \"C\" functions and against a model of plain Rust operations, in child processes",
   "level": "Generated sequences of 1-40 calls over a pool of handles; after every call the result, the failure sentinel + single error message, and a deep snapshot of every pooled handle are compared with the model. Aborts are attributed to the sequence in flight, confirmed alone and shrunk. Held on everything explored.",
   "note": "Handles are chosen mostly kind-aware by the interpreter (a pure function of the op list and the state). Calls aliasing one handle as container and entry/result are skipped. make_tz_datetime may read its fields as UTC or local wall clock.",
-  "ref": "DESIGN.md section 3 C17; section 9 (what the build added, findings, sensitivity rounds 9.7-9.12, appendix E)",
+  "ref": "DESIGN.md section 3 C17; section 9 (what the build added, findings, sensitivity rounds 9.7-9.12 and 9.14, appendix E)",
  },
  "C18": {
   "technique": "the C17 sequence generator executed under AddressSanitizer + LeakSanitizer in child processes (fault attribution by re-run, shrinking by call deletion), plus an exhaustive null-pointer sweep",
   "level": "Any ASan report, any leak after the protocol-following teardown (LeakSanitizer check every 64 sequences, attributed by re-running the window) and any abort is a violation; every pointer parameter of every non-destroy function is tried as null (finite, exhaustive). Held on everything explored.",
   "note": "Needs the nightly toolchain's -Zsanitizer=address (pre-installed); build adds ~1.5 min cold to setup. Filter handles have no destroy function in the API and are dropped by the harness.",
-  "ref": "DESIGN.md section 3 C18; section 9 (what the build added, findings, sensitivity rounds 9.7-9.12, appendix E)",
+  "ref": "DESIGN.md section 3 C18; section 9 (what the build added, findings, sensitivity rounds 9.7-9.12 and 9.14, appendix E)",
  },
  "C20": {
   "technique": "model-based property testing (proptest) against a hand-written macro scanner and the documented precedence chain",
   "level": "Generated records over the eight display tags, macro patterns over $ { } < > identifiers/spaces/non-ASCII and a partial localisation function; dis_macro, dict_to_dis and Dict::dis must equal the model; no panics. Held on everything explored.",
   "note": "One-letter names after $ and Null-valued display tags are only checked for absence of panics (left open by the documentation / data model).",
-  "ref": "DESIGN.md section 3 C20; section 9 (what the build added, findings, sensitivity rounds 9.7-9.12, appendix E)",
+  "ref": "DESIGN.md section 3 C20; section 9 (what the build added, findings, sensitivity rounds 9.7-9.12 and 9.14, appendix E)",
  },
 }
